@@ -14,6 +14,8 @@ Three correspondences against the real code (in-process, no fakes):
     on generated well-formed workflows and ALL single-fault mutants at ALL positions; compared: accept/reject and
     the reason class; the property predicate is evaluated on the real outcome (exception type, watchdog, and for
     accepted workflows: expanded graph acyclic, identifiers unique, references resolved, configurations resolve).
+    For the CyclicVars faults (one more mention among the variables) the model's own Model.mutate of the well-formed
+    workflow is also compared with the real load of the mutant (check_mutant_case).
  C. every named predicate of the table vs Model.pred_eval on a battery of values."""
 import copy
 import json
@@ -33,7 +35,10 @@ ASSUMPTIONS = [
     'int(str) is modelled for the plain spellings [+-]?[0-9]+ only (no blanks/underscores); '
     'the regular expressions of is_var_reference and ParseDataReference are the recognisers of coq/Ref/Model.v (C09)',
     'the workflow model has one platform, no DoWhile/import documents, no interface, no application dependencies; '
-    'replication appears only through the real loader (primitive=False), not in the model',
+    'replication appears in the load correspondence only through the real loader (primitive=False); the Coq mirror of the '
+    'expansion (coq/Valid/Replicate.v) uses structured (component, replica index) identifiers and is not compared',
+    'global variables are resolved among themselves and stored in place before components are resolved '
+    '(FlowIRConcrete.instance): a global whose transitive mentions are all globals is a constant for the components',
     'the rendering of a structured workflow into a FlowIR dictionary (harness) is trusted',
     'graphFromFlowIR is loaded with primitive=False: with the default primitive=True the loader does not look for '
     'cycles at all (the property speaks about the expanded graph)',
